@@ -300,4 +300,20 @@ PROPS['C07'] = {
     'design_ref': '§6 C07',
 }
 
+PROPS['C18'] = {
+    'title': 'Concurrent use is free of data races and deadlocks',
+    'modules': ['ColumnVerif.Props.C15conc', 'ColumnVerif.Props.C10', 'ColumnVerif.Props.C08', 'ColumnVerif.Props.C18skel'],
+    'runs': [{'mode': 'stress', 'race': True}, {'mode': 'sched'}],
+    'skeleton': True,
+    'trusted_base': CONC_TB + ["the Go race detector (sampling: it reports only races that occur in the run) and a no-progress watchdog are the observation of the runtime behaviour"],
+    'assumptions': [
+        "PARTIAL: absence of memory-level races is observed by the race detector on the executed workloads, not proved; the theorems cover the latch protocol of the modelled protocol functions only",
+        "races present on the unchanged tree are finding D19 (identified by racing pair); any other pair is reported",
+        "observation O3: a callback that takes a second read latch on the same shard (e.g. QueryAt inside Range) can deadlock against a waiting writer (sync.RWMutex is writer-preferring); outside the property's mix, recorded in DESIGN.md",
+    ],
+    'level_text': "PARTIAL. Lean theorems (small-step machines, every schedule): the chunk latch is exclusive among writers and excludes readers, a snapshot's chunk read excludes the chunk's writer, every access of the modelled commit / read / snapshot protocol to a chunk's columns happens under that latch; the regenerated skeleton establishes for the current source which calls sit inside which lock (latch around the commit closure, RLock around reader callbacks with the row's own chunk, collection lock around every fill-list access, log mutex shared by Append/Range/Copy, key table lock). Runtime: the harness built with -race runs writers, point reads, filtered iteration, bulk inserts/deletes across chunk boundaries with offset re-use, snapshot+restore into other collections, index creation and the vacuum in real parallelism; every race report is reduced to its pair of top frames inside /repo and compared with the listed pairs of D19; a watchdog flags any worker or controlled schedule that never completes.",
+    'technique': 'Lean 4 proof (latch-protocol invariants) + regenerated protocol skeleton + race detector / watchdog runs; memory-level race freedom not proved',
+    'design_ref': '§6 C18',
+}
+
 ALL_IDS = ['C%02d' % i for i in range(1, 20)]
